@@ -186,6 +186,7 @@ def check_segs(ctx, seglists, tag):
                                'broken': 'wf_segs accepts a script the reference segmenter rejects'})
     # and every rendered script (well-formed or not) through the state machine model
     check_prep(ctx, scripts, tag + '-statemachine')
+    check_prepare_variables(ctx, scripts[:max(1000, len(scripts) // 5)])
 
 
 # ---------------------------------------------------------------------------
@@ -334,6 +335,43 @@ def check_metadata_only(ctx, n):
                          holds=lambda: io == want)
         if ok and io != want:
             ctx.violation({'kind': 'script-metadata-only', 'case': {'cmd': line, 'script': s}, 'impl': io})
+
+
+class FakeMessage:
+    filename = 'F'
+
+
+def check_prepare_variables(ctx, scripts):
+    """ScriptRunner.prepare_variables with the query evaluation stubbed out
+    (get_query_result -> 'Q' + expression): names bound, in order, and to what."""
+    from pybufrkit.script import ScriptRunner, process_embedded_query_expr
+    mouts = lib.run_model_sharded(['vars ' + tok(s) for s in scripts])
+    for s, mo in zip(scripts, mouts):
+        r = ScriptRunner.__new__(ScriptRunner)
+        r.code_string, r.substitutions = process_embedded_query_expr(s)
+        r.get_query_result = lambda msg, q: 'Q' + tok(q)
+        fake = FakeMessage()
+        try:
+            with lib.time_limit(20):
+                v = r.prepare_variables(fake)
+            io = ' '.join('%s=%s' % (tok(k), 'M' if x is fake else x) for k, x in v.items())
+        except Exception as e:
+            v, io = {}, 'err %d' % lib.err_code(e)
+        ctx.count(('vars', s), '${' in s)
+        ctx.dist['prepare-variables'] += 1
+
+        def holds():
+            segs = segment(s)
+            if segs is None:
+                return True
+            _, names = spec_of_segments(segs)
+            want = {n: 'Q' + tok(k) for k, n in names.items()}
+            want.update({'PBK_BUFR_MESSAGE': fake, 'PBK_FILENAME': 'F'})
+            return v == want
+        h = holds()
+        ok = ctx.compare({'cmd': 'vars ' + tok(s), 'script': s}, io, mo, kind='script-prepare-variables', holds=lambda: h)
+        if ok and not h:
+            ctx.violation({'kind': 'script-prepare-variables', 'case': {'cmd': 'vars ' + tok(s), 'script': s}, 'impl': io})
 
 
 # ---------------------------------------------------------------------------
@@ -668,6 +706,10 @@ def replay(ctx, rec):
         io = impl_level(None if toks[1] == 'N' else int(toks[1]), untok(toks[2]))
     elif toks[0] == 'flat':
         io = fmt_flat(int(toks[1]), impl_flatten(int(toks[1]), json.loads(toks[2])))
+    elif toks[0] == 'vars':
+        before = len(ctx.violations)
+        check_prepare_variables(ctx, [untok(toks[1])])
+        return {'cmd': line, 'agree': len(ctx.violations) == before}
     elif toks[0] == 'segs':
         script = untok(mo.split(' ')[1])
         io, mo = impl_prep(script)[0], mo.split(' ', 3)[3]
